@@ -8,6 +8,7 @@ import (
 	"net/http/httptest"
 	"strings"
 	"sync"
+	"sync/atomic"
 	"testing"
 	"time"
 	"unicode/utf8"
@@ -896,6 +897,7 @@ func execC19Conc(t *testing.T, c C19Conc) (v Verdict) {
 	ctx, cancel := context.WithTimeout(context.Background(), netBudget)
 	defer cancel()
 	var writeEnd, readEnd goat.RpcReadWriter
+	var announced atomic.Int32
 	switch c.Transport {
 	case "channel":
 		q := make(chan *goat.Rpc)
@@ -905,8 +907,12 @@ func execC19Conc(t *testing.T, c C19Conc) (v Verdict) {
 		defer cleanup()
 		writeEnd, readEnd = cl, sv
 	case "http":
-		connected := make(chan goat.RpcReadWriter, 4)
-		recv := goat.NewGoatOverHttp(func(id string, rw goat.RpcReadWriter) { connected <- rw }, func(src string) (string, error) { return "addr-of-" + src, nil })
+		connected := make(chan goat.RpcReadWriter, 64)
+		recv := goat.NewGoatOverHttp(func(id string, rw goat.RpcReadWriter) {
+			if announced.Add(1) == 1 {
+				connected <- rw
+			}
+		}, func(src string) (string, error) { return "addr-of-" + src, nil })
 		defer recv.Cancel()
 		hs := httptest.NewServer(recv)
 		defer hs.Close()
@@ -949,7 +955,16 @@ func execC19Conc(t *testing.T, c C19Conc) (v Verdict) {
 	}
 	close(start)
 	wg.Wait()
+	if n := announced.Load(); n > 1 {
+		// whatever else happens: all writers share one source, so one logical connection is what the receiving end may
+		// announce for them; with several, the envelopes of one conversation are split between readers that know nothing
+		// of each other (and "in write order" has no meaning any more)
+		v.failf("%s: the receiving endpoint announced %d logical connections for one source whose first envelopes arrived concurrently", c.Transport, n)
+	}
 	for w, err := range werrs {
+		if v.Fail != "" {
+			break
+		}
 		if err != nil {
 			if ctx.Err() != nil {
 				inconclusive(t, "%s: concurrent writes exceeded %v", c.Transport, netBudget)
